@@ -141,7 +141,9 @@ func MatchCall(c Call, names ...string) bool {
 
 // Strip removes value-preserving wrappers (interface conversions, type
 // changes, single-input phis).
-func Strip(v ssa.Value) ssa.Value {
+func Strip(v ssa.Value) ssa.Value { return stripSeen(v, nil) }
+
+func stripSeen(v ssa.Value, seen map[*ssa.Phi]bool) ssa.Value {
 	for i := 0; i < 20; i++ {
 		switch x := v.(type) {
 		case *ssa.UnOp:
@@ -157,10 +159,21 @@ func Strip(v ssa.Value) ssa.Value {
 		case *ssa.ChangeType:
 			v = x.X
 		case *ssa.Phi:
+			// loop-carried phis refer to themselves (directly or through other phis)
+			if seen[x] {
+				return v
+			}
+			if seen == nil {
+				seen = map[*ssa.Phi]bool{}
+			}
+			seen[x] = true
 			var u ssa.Value
 			same := true
 			for _, e := range x.Edges {
-				e = Strip(e)
+				e = stripSeen(e, seen)
+				if e == ssa.Value(x) {
+					continue // the phi itself: does not add a value
+				}
 				if u == nil {
 					u = e
 				} else if u != e {
